@@ -660,8 +660,8 @@ bool TimeZoneInfo::Load(ZoneInfoSource* zip) {
       return false;
     time_len = 8;
   }
-  if (hdr.typecnt == 0)
-    return false;
+  if (hdr.typecnt == 0 || hdr.typecnt > 256)
+    return false;  // type indices are a single byte
   if (hdr.leapcnt != 0) {
     // This code assumes 60-second minutes so we do not want
     // the leap-second encoded zoneinfo. We could reverse the
@@ -721,7 +721,7 @@ bool TimeZoneInfo::Load(ZoneInfoSource* zip) {
   // Determine the before-first-transition type.
   default_transition_type_ = 0;
   if (seen_type_0 && hdr.timecnt != 0) {
-    std::uint_fast8_t index = 0;
+    std::size_t index = 0;  // may reach hdr.typecnt (== 256)
     if (transition_types_[0].is_dst) {
       index = transitions_[0].type_index;
       while (index != 0 && transition_types_[index].is_dst)
@@ -730,7 +730,7 @@ bool TimeZoneInfo::Load(ZoneInfoSource* zip) {
     while (index != hdr.typecnt && transition_types_[index].is_dst)
       ++index;
     if (index != hdr.typecnt)
-      default_transition_type_ = index;
+      default_transition_type_ = static_cast<std::uint_fast8_t>(index);
   }
 
   // Copy all the abbreviations.
